@@ -220,7 +220,10 @@ def check_book(case, ctx):
             fn = os.path.join(d, '%s.xlsx' % variant)
             write_book(fn, case, rr)
             try:
-                got = read_excel(io=fn, skiprows=[1] if case['comment_row'] else [], sheet_name=case['sheet'])
+                if case['comment_row'] and variant == 'reversed':
+                    got = read_excel(io=fn, sheet_name=case['sheet'])      # documented default: row 1 holds comments
+                else:
+                    got = read_excel(io=fn, skiprows=[1] if case['comment_row'] else [], header=0, sheet_name=case['sheet'])
             except Exception as e:
                 from vf.core import exc_site
                 if exc_site(e) is None:
